@@ -299,6 +299,7 @@ def cli_replay_pair(a, b):
 
 SPLIT_QUERIES = [
     'name from /r1, /r2 where size > 1',
+    'name from d,d/f where size > 1',
     'path from /home/u/old, /home/u/new where name = x',
     'name from /r1 depth 2, /r2 sym, /r3',
     'name, size from . where size gt 1 and name ne x order by size desc, name limit 3',
@@ -397,9 +398,45 @@ PARSE_PAIRS = [
 ]
 
 
-def fam_parse_pairs(sess):
+CASE_BASES = [
+    ['name', ',', 'size', 'from', '.', 'where', 'size', 'op:between', '1', 'and', '5', 'order', 'by', 'size', 'desc', ',', 'name', 'limit', '5', 'into', 'json'],
+    ['name', 'from', '.', 'where', 'not', 'name', 'op:like', 'x', 'or', 'size', 'op:lt', '3'],
+    ['name', 'from', '.', 'mindepth', '1', 'maxdepth', '2', 'sym', 'arc', 'dfs', 'gitignore', 'where', 'name', 'op:rx', 'x', 'and', 'size', 'op:gte', '1', 'and', 'is_dir', 'op:ne', 'true'],
+    ['name', 'from', '.', 'depth', '1', 'op:rx'],
+    ['upper', '(', 'name', ')', ',', 'min', '(', 'size', ')', 'from', '.', 'where', 'size', 'not', 'op:between', '1', 'and', '2', 'group', 'by', 'name'],
+    ['name', 'from', '.', 'where', 'name', 'op:notlike', 'x', 'and', 'name', 'op:regexp', 'y', 'and', 'name', 'op:notrx', 'z', 'and', 'name', 'op:eeq', 'a', 'and', 'name', 'op:ene', 'b'],
+    ['size', 'ar:plus', '1', ',', 'size', 'ar:mul', '2', 'from', '.'],
+]
+CASE_EXTRA_PAIRS = [
+    # `()` after an argument-less function changes nothing
+    (['curdate', 'from', '.'], ['curdate', '(', ')', 'from', '.']),
+    (['name', ',', 'curdate', 'from', '.'], ['name', ',', 'curdate', '(', ')', 'from', '.']),
+    (['name', 'from', '.', 'where', 'modified', 'op:=', 'curdate'], ['name', 'from', '.', 'where', 'modified', 'op:=', 'curdate', '(', ')']),
+]
+
+
+def case_pairs(quick):
+    out = []
+    for base in CASE_BASES:
+        for i, t in enumerate(base):
+            w = t.split(':', 1)[-1]
+            if not w.isalpha() or t in P.KW or t.startswith('q:') or w in ('x', 'y', 'z', 'a', 'b', 'true'):
+                continue
+            pre = t[:len(t) - len(w)]
+            for v in ((w.upper(),) if quick else (w.upper(), w.capitalize())):
+                out.append((base, base[:i] + [pre + v] + base[i + 1:]))
+    return out + CASE_EXTRA_PAIRS
+
+
+def fam_case(sess):
+    """letter case of every word the PARSER sees (column, function, operator word, root option, format, arithmetic word; the clause
+    keywords are the lexer's: lexer_words) and the optional `()` of argument-less functions: one token changed at a time"""
+    fam_parse_pairs(sess, case_pairs(sess.tier == 'quick'), 'case')
+
+
+def fam_parse_pairs(sess, pairs=None, fam='parse_pairs'):
     prog = sess.prog
-    fam = 'parse_pairs'
+    PARSE_PAIRS = pairs or globals()['PARSE_PAIRS']
     ov = P.table_overrides() + P.lexer_stub_overrides() + [(r'^UserDirs::new$|^directories::UserDirs::new$', lambda ctx, a, c: none(), 'stub:UserDirs::new(None)')]
     ex = sess.executor(ov, unwind=30)
     parse = prog.find('Parser', 'parse')
@@ -428,7 +465,7 @@ def fam_parse_pairs(sess):
                 sess.violated(name, 'parse/pair:' + ' '.join(b)[:40], 'the two spellings parse to different queries', {'a': a, 'b': b}, cli_replay_pair([' '.join(t.split(':')[-1] for t in a)], [' '.join(t.split(':')[-1] for t in b)]), fam)
         ex.explore(run, on_path)
         if not box.get('viol') and not box.get('bad'):
-            sess.discharged('parse pair %r ~ %r' % (' '.join(a)[:50], ' '.join(b)[:50]), family=fam)
+            sess.discharged('%s %r ~ %r' % (fam, ' '.join(a)[:50], ' '.join([y for x, y in zip(a, b) if x != y] or b)[:50]), family=fam)
 
 
 def main(sess):
@@ -438,7 +475,7 @@ def main(sess):
         'the lexer families execute the real lexer MIR on concrete words / queries; lexer_splits: the split-point set is a solver bit-vector, every subset of the whitespace positions of the listed queries is explored (root paths without blanks)',
     ]
     only = getattr(sess, 'only', None)
-    for name, f in (('alias', fam_alias), ('lexer_words', fam_lexer_words), ('lexer_pairs', fam_lexer_pairs), ('lexer_splits', fam_lexer_splits), ('parse_pairs', fam_parse_pairs)):
+    for name, f in (('alias', fam_alias), ('lexer_words', fam_lexer_words), ('lexer_pairs', fam_lexer_pairs), ('lexer_splits', fam_lexer_splits), ('parse_pairs', fam_parse_pairs), ('case', fam_case)):
         if not only or name in only:
             f(sess)
     if not only or 'e2e' in only:
